@@ -559,7 +559,7 @@ def judge(prop, tier):
         rep.coverage["machine_conformance"] = mach
         rep.coverage["states"] += mach["states"]
         rep.coverage["transitions"] += mach["transitions"]
-        if mach["selftest_rejected"] < mach["grammars"]:
+        if mach["selftest_rejected"] < mach["selftest_expected"]:
             raise ToolError("machine binding self-test failed: a corrupted record was not reported as drift")
     rep.assumptions = [
         "token vectors are injected through ParserCallbacks::Context; the lexer is not part of these properties",
@@ -747,15 +747,18 @@ def machine_conformance(b, outs, tag="m"):
     recs = [machine_record(o) for o in outs]
     # binding self-test: one corrupted copy (last record) must be reported as drift
     import copy
+    has_st = False
     for r in recs:
         if not r["panic"] and r["flat"]:
             c = copy.deepcopy(r)
             c["dl"] = c["dl"] + [len(c["w"])]
             recs.append(c)
+            has_st = True
             break
     write_ndjson(rfile, recs)
     res = run_tlc("MC_P2M", "MC_P2M.cfg", env={"GFILE": gfile, "RFILE": rfile}, workers=2,
                   timeout=1500, xmx="3g", job="p2m-%s-%s" % (tag, b.name))
+    res.has_selftest = has_st
     return res
 
 
@@ -765,7 +768,7 @@ def machine_stage(sel, cap):
         outs, meta = outcomes_for(b, cap, False)
         return b, outs, machine_conformance(b, outs)
     out = {"grammars": 0, "behaviours": 0, "states": 0, "transitions": 0, "drift": {}, "inv": {},
-           "hard_invariant": {}, "selftest_rejected": 0, "errors": {}}
+           "hard_invariant": {}, "selftest_rejected": 0, "selftest_expected": 0, "errors": {}}
     per = {}
     for b, outs, res in parallel(one, sel):
         n = len(outs)
@@ -778,6 +781,8 @@ def machine_stage(sel, cap):
         if res.violated:
             out["hard_invariant"][b.name] = res.violated
         dr = [d for d in res.payload("DRIFT") if d]
+        if getattr(res, "has_selftest", False):
+            out["selftest_expected"] += 1
         if any(d["i"] == n + 1 for d in dr):
             out["selftest_rejected"] += 1
         dr = [d for d in dr if d["i"] <= n]
